@@ -20,7 +20,7 @@ PROPS = {
                 "1 in 20 leaves compare anything with anything); 1..3 assignments per rule (arithmetic, string concatenation, literals, field copies; targets: existing fields, new fields under existing objects, new "
                 "top-level names, paths under absent objects); plus feeding chains (a quarter as many cases): lower-salience rules write, flat or nested, the very field a higher-salience rule tests, so that a rule is false when first "
                 "considered and true in a later pass. Every case also runs through plain `execute` on a fresh engine (result and final facts). Observed: the parsed Rule structures, every firing with the complete fact store after it (callback of execute_with_callback), cycle / evaluated / fired counters "
-                "or the error. non-trivial = at least one firing",
+                "or the error. non-trivial = at least one firing String literals containing comparison operators (x>=y, a==b, <, p != q) occur in the odd-string pool; the witness of known finding C01-comparison-operator-in-string-of-arithmetic-condition (monitor class 3) is in the corpus.",
         "level_text": "Theorems (Coq, every rule set / fact store / text): (1) evaluate_expression applied to the printed text of ANY well-formed tree applies each operator to the values of exactly its two sub-trees "
                 "(precedence, left associativity, parentheses, negative and string literals recovered from the string by the rightmost-operator split with byte offsets); (2) the operator table: wherever the documented "
                 "comparison is defined, Operator::evaluate returns it; (3) condition evaluation never panics and always yields a boolean; (4) one consideration: whenever the documented meaning of the when-expression and "
@@ -46,7 +46,7 @@ PROPS = {
                 "ScheduleRule (rule names with commas and parentheses), CompleteWorkflow, custom function calls and `$Object.method(...)` calls with 0..4 arguments (half of them with string arguments made of apostrophes and commas); layout: blanks, tabs, line breaks between any two tokens, comment lines and trailing comments anywhere (1 file in 12 with comments "
                 "containing a closing brace or a rule header). Second stream: bare when clauses (depth to 6, metacharacter strings in half of them, arbitrary blanks and redundant parentheses) through the hook "
                 "verif_parse_when_clause, compared with the Coq model of the condition-tree parser AND with the written tree. Observed per rule: name, salience, flags, groups, dates, condition tree, action list. "
-                "non-trivial = at least one rule",
+                "non-trivial = at least one rule Negated negations are generated and printed side by side (!!(..), ! !(..)) as well as parenthesised.",
         "level_text": "Theorems (Coq): the condition-tree parser recovers the written tree - for EVERY tree of comparisons joined by &&, || and !( ), any depth, any number of redundant parenthesis pairs, leaves being neutral texts "
                 "(proved for ordinary text optionally followed by a string literal with arbitrary content), parse_when (print tree) = tree: && binds tighter than ||, parentheses and ! respected. Lemmas for every text: string literals are opaque to the condition splitter (whatever stands between two equal quote characters never separates conditions, at any depth, for any continuation); "
                 "parentheses protect (a text that may split at its own top level does not split once parenthesised); a top-level && / || between two non-splitting texts separates exactly there into exactly the two trimmed "
@@ -137,7 +137,7 @@ PROPS = {
                 "parse_stream_pattern / parse_stream_join_pattern, parse_aggregate_query, DisjunctionParser, NestedQueryParser::parse / has_nested on arbitrary text) x streams: random strings over the identifier alphabet; every "
                 "single insertion of 12 multi-byte characters (incl. 6 whose case mapping changes the UTF-8 length: U+0130, U+212A, U+023A, U+1E9E, U+0390, U+FB01) into 5 expressions; every seed x blank position x entry point with such a character directly before the blank, and with it earlier plus a multi-byte character after the following token; 19 valid seed texts (incl. string literals with escaped quotes / backslashes, a window duration at the u64 limit) and their mutants (truncate, duplicate a segment, insert a multi-byte character / a token, splice with another seed, delete, "
                 "replace by a delimiter, replace a digit run by one of 8 limit numbers); EVERY prefix of every seed (3 entry points each; thorough: all), every seed x digit run x limit number x entry point; token soups of 48 GRL/query tokens; lossily decoded raw bytes; prefix chains and nestings (!, (, [, {, NOT, -, !(, exists() of depth 33, 500 and up to 4 KiB. The batch runs in a child "
-                "process: a panic is caught per case, a stack overflow/abort or 120 s without progress marks the case and the run continues. non-trivial = every case Expression-parser stream: 5000 (quick) / 30000 (thorough) token strings over the query alphabet plus every prefix and suffix of four queries, AST compared with the model.",
+                "process: a panic is caught per case, a stack overflow/abort or 120 s without progress marks the case and the run continues. non-trivial = every case Expression-parser stream: 5000 (quick) / 30000 (thorough) token strings over the query alphabet plus every prefix and suffix of four queries, AST compared with the model. Evaluator chains: 8 (quick) / 60 (thorough) random chains and as many plain sums of products of 18..40 terms over missing identifiers (a failing operand must be reported at once).",
         "level_text": "Theorem for the expression evaluator, for EVERY string: no slice off a character boundary or out of range, termination with recursion depth <= length+1 (every slice of the code carries its byte offsets in the "
                 "model, a bad slice is the value RPanic). On the identifier alphabet the model's exact outcome (first failing leaf) is compared with the code. All other entry points are exercised by the fuzzing streams under "
                 "the crash/hang watchdog; the verdict per case is the Coq-defined ExprShape.ok (returned a value or an error). Second modelled parser (Model/BwExpr.v): the backward-chaining ExpressionParser (recursive descent over a Vec<char> with an index; reached through ExpressionParser::parse, QueryParser and GRLQuery) - theorem for EVERY string and every character classification: no index / slice of the parser is out of range and the mutual recursion with its two loops ends within depth 6*length+8; on a query alphabet (identifiers, all literal kinds with escapes, signed / dotted numbers, every operator, parentheses, negation, variables, non-ASCII letters / digits / blanks / symbols) the model predicts the AST or the error exactly and is compared with the code; QueryParser::parse (empty query, trim, optional leading NOT) is modelled on top of it with the same theorem and comparison.",
